@@ -62,14 +62,13 @@ class ADWINAccuracy(ADWIN):
         Raises:
             ValueError: If ``ADWIN.delta`` is not on the range 0 to 1.
         """
-        # TODO - um, shouldn't this use the init parameters
         super().__init__(
-            delta=0.002,
-            max_buckets=5,
-            new_sample_thresh=32,
-            window_size_thresh=10,
-            subwindow_size_thresh=5,
-            conservative_bound=False,
+            delta=delta,
+            max_buckets=max_buckets,
+            new_sample_thresh=new_sample_thresh,
+            window_size_thresh=window_size_thresh,
+            subwindow_size_thresh=subwindow_size_thresh,
+            conservative_bound=conservative_bound,
         )
 
     def update(self, y_true, y_pred, X=None):
@@ -86,7 +85,7 @@ class ADWINAccuracy(ADWIN):
         # This class is here to avoid asking the user to provide such a direct
         # function of (y_true, y_pred) in the X argument, which is unintuitive.
         _, y_true, y_pred = super()._validate_input(None, y_true, y_pred)
-        new_value = int(y_true == y_pred)
         # the arrays should have a single element after validation.
         y_true, y_pred = y_true[0], y_pred[0]
+        new_value = int(y_true == y_pred)
         super().update(new_value, y_true=None, y_pred=None)
